@@ -289,6 +289,9 @@ impl BitFont {
     ///
     /// This function will return an error if .
     pub fn from_bytes(font_name: impl Into<String>, data: &[u8]) -> EngineResult<Self> {
+        if data.len() < 4 {
+            return Err(FontError::UnknownFontFormat(data.len()).into());
+        }
         let magic16 = u16::from_le_bytes(data[0..2].try_into().unwrap());
         if magic16 == BitFont::PSF1_MAGIC {
             return Ok(BitFont::load_psf1(font_name, data));
